@@ -20,3 +20,5 @@ open GoRedis
 #print axioms C05_zadd
 #print axioms C05_source_shapes_match_model
 #print axioms C05_source_ascii_case
+#print axioms C05_app_executor_dispatched
+#print axioms C05_app_executor_one_call
